@@ -87,6 +87,15 @@ def run(ck):
     for path, fl in (("f", O["RDONLY"]), ("d", O["RDONLY"] | O["DIRECTORY"]), ("f", O["PATH"]), ("g", O["RDWR"])):
         jid += 1
         ujobs.append({"id": jid, "tree": TREE, "op": {"k": "reopen_unshared", "path": H(path), "flags": fl}})
+    # "a NEW open file description": handles made from ordinary descriptors (Handle::from_fd / pathrs_reopen on a non-O_PATH fd),
+    # reopened with exactly the flags they already have and with others; offsets and status flags must not be shared
+    APPEND, NONBLOCK = 0o2000, 0o4000
+    for path, hfl, fl in (("f", O["RDONLY"], O["RDONLY"]), ("f", O["RDWR"], O["RDWR"]), ("f", O["RDWR"] | APPEND, O["RDWR"] | APPEND),
+                          ("f", O["WRONLY"], O["WRONLY"]), ("f", O["RDONLY"], O["RDWR"]), ("f", O["RDWR"], O["RDONLY"]),
+                          ("f", O["RDONLY"] | NONBLOCK, O["RDONLY"] | NONBLOCK), ("g", O["RDONLY"], O["RDONLY"]),
+                          ("d", O["RDONLY"] | O["DIRECTORY"], O["RDONLY"] | O["DIRECTORY"]), ("d", O["RDONLY"], O["RDONLY"])):
+        jid += 1
+        ujobs.append({"id": jid, "tree": TREE, "op": {"k": "reopen_ofd", "path": H(path), "hflags": hfl, "flags": fl}})
     byid = {j["id"]: j for j in jobs + ujobs}
     stats = {"runs": 0, "ok": 0, "eloop": 0, "refused": 0, "other_err": 0, "t1_ok": 0, "t1_bad": 0, "by_kind": {}, "by_fd": {}}
     nontrivial = set()
@@ -102,6 +111,18 @@ def run(ck):
             job = byid[jid]
             op = job["op"]
             r = res.get("res", {})
+            if op["k"] == "reopen_ofd":
+                if "setup_err" in r or not r.get("ok"):
+                    continue
+                stats["new_description_runs"] = stats.get("new_description_runs", 0) + 1
+                d_ = {"resolver": "emulated procfs" if deny else "openat2", "handle_opened_with": oct(op["hflags"]), "reopened_with": oct(op["flags"]),
+                      "path": unhex(op["path"]).decode(), "observed": r}
+                if not r["same_inode"]:
+                    ck.violation("C09: reopen of a handle made from an ordinary descriptor did not return the handle's inode", d_)
+                elif r["handle_offset_after"] != r["handle_offset_before"] or r["handle_getfl_after"] != r["handle_getfl_before"]:
+                    ck.violation("C09: reopen did not return a NEW open file description: seeking / F_SETFL on the result moved the "
+                                 "handle's own offset / changed its status flags (the result aliases the handle)", d_)
+                continue
             if op["k"] == "reopen_unshared":
                 if "setup_err" in r or "res" not in r:
                     continue
@@ -231,7 +252,7 @@ def run(ck):
         "samples": samples or [{"note": "none"}],
         "reopened_ok": stats["ok"], "symlink_eloop": stats["eloop"], "creation_refused": stats["refused"],
         "other_errors_compared_with_kernel": stats["other_err"],
-        "unshared_fd_table_runs": stats.get("unshared", 0),
+        "unshared_fd_table_runs": stats.get("unshared", 0), "new_open_file_description_runs": stats.get("new_description_runs", 0),
         "by_inode_kind": stats["by_kind"], "by_descriptor_number": stats["by_fd"],
         "reopen_calls_whose_flags_were_judged": stats.get("reopen_calls_seen", 0),
         "static_kernel_traces_validated": stats.get("static_traces", 0), "static_kernel_calls_compared": stats.get("static_calls", 0),
